@@ -16,11 +16,16 @@ class Inconclusive(Exception):
 class Ctx:
     def __init__(self, root, pid, tier, seed, clean=True):
         self.root, self.pid, self.tier, self.seed = root, pid, tier, seed
-        self.out = os.path.join(root, "out", pid)
+        # VERIF_REPO=<dir>: build the harness against another checkout of hive.go (a scratch worktree holding a seeded
+        # change) instead of /repo; binaries, outputs and evidence then go to separate places so that regular runs
+        # are not disturbed.  Registered checks never set it.
+        self.repo = os.environ.get("VERIF_REPO", "/repo").rstrip("/")
+        self.alt = self.repo != "/repo"
+        self.out = os.path.join(root, "out", pid + ("-alt-" + os.path.basename(self.repo) if self.alt else ""))
         if clean:
             shutil.rmtree(self.out, ignore_errors=True)
         os.makedirs(self.out, exist_ok=True)
-        self.h = os.path.join(root, "harness", "bin", "h-" + pid)
+        self.h = os.path.join(root, "harness", "bin", "h-" + pid + ("-alt-" + os.path.basename(self.repo) if self.alt else ""))
         self.violations = []     # dicts: unit, sig, what, replay
         self.inconclusive = []   # strings
         self.states = 0
@@ -74,13 +79,22 @@ def build_harness(ctx, race=False):
     with open(os.path.join(hdir, "go.sum"), "w") as fh:
         fh.write("\n".join(sorted(sums)) + "\n")
     os.makedirs(os.path.join(hdir, "bin"), exist_ok=True)
-    cmd = ["go", "build", "-tags", "verif", "-o", "bin/h-" + ctx.pid, "./cmd/" + ctx.pid.lower()]
+    modflag = []
+    if ctx.alt:
+        tag = os.path.basename(ctx.repo)
+        with open(os.path.join(hdir, "go.mod")) as fh:
+            mod = fh.read().replace("=> /repo/", "=> " + ctx.repo + "/")
+        with open(os.path.join(hdir, "go.alt-%s.mod" % tag), "w") as fh:
+            fh.write(mod)
+        shutil.copy(os.path.join(hdir, "go.sum"), os.path.join(hdir, "go.alt-%s.sum" % tag))
+        modflag = ["-modfile", "go.alt-%s.mod" % tag]
+    cmd = ["go", "build"] + modflag + ["-tags", "verif", "-o", ctx.h, "./cmd/" + ctx.pid.lower()]
     p = subprocess.run(cmd, cwd=hdir, env=goenv(), stdout=subprocess.PIPE, stderr=subprocess.STDOUT, text=True)
     if p.returncode != 0:
         print(p.stdout)
         raise Inconclusive("harness does not build against /repo (exit %d)" % p.returncode)
     if race:
-        cmd = ["go", "build", "-race", "-tags", "verif", "-o", "bin/h-" + ctx.pid + "-race", "./cmd/" + ctx.pid.lower()]
+        cmd = ["go", "build"] + modflag + ["-race", "-tags", "verif", "-o", ctx.h + "-race", "./cmd/" + ctx.pid.lower()]
         p = subprocess.run(cmd, cwd=hdir, env=goenv(), stdout=subprocess.PIPE, stderr=subprocess.STDOUT, text=True)
         if p.returncode != 0:
             print(p.stdout)
@@ -119,9 +133,10 @@ class SeqUnit(Unit):
 
     def __init__(self, sub, module, sut=None, traces=(60, 80), thorough_traces=(600, 120), walks=(200, 30),
                  thorough_walks=(3000, 60), mc_timeout=900, do_mc=True, do_lts=True, do_trace=True,
-                 thorough_cfg=None, coverage_gate=True):
+                 thorough_cfg=None, coverage_gate=True, lts_kind="lts", name=None):
         self.sub, self.module, self.sut = sub, module, sut or module
-        self.name = module
+        self.name = name or module
+        self.lts_kind = lts_kind
         self.traces, self.thorough_traces = traces, thorough_traces
         self.walks, self.thorough_walks = walks, thorough_walks
         self.mc_timeout = mc_timeout
@@ -156,9 +171,9 @@ class SeqUnit(Unit):
             self.run_trace(ctx, sd)
 
     def run_lts(self, ctx, sd):
-        edges = os.path.join(ctx.out, self.module + ".edges")
-        kind = "lts"
-        if ctx.thorough and os.path.exists(os.path.join(sd, self.module + ".thorough.cfg")):
+        edges = os.path.join(ctx.out, self.name.replace(":", "_") + ".edges")
+        kind = self.lts_kind
+        if self.lts_kind == "lts" and ctx.thorough and os.path.exists(os.path.join(sd, self.module + ".thorough.cfg")):
             kind = "thorough"
         r, n = flows.lts(sd, self.module, edges, cfgkind=kind, timeout=self.mc_timeout)
         if not r.ok() or n == 0:
@@ -167,7 +182,7 @@ class SeqUnit(Unit):
                 fh.write(r.out)
             raise Inconclusive("LTS export of %s failed: %s (%s)" % (self.module, r.status, save))
         walks, depth = self.thorough_walks if ctx.thorough else self.walks
-        rep_path = os.path.join(ctx.out, self.module + ".walk.json")
+        rep_path = os.path.join(ctx.out, self.name.replace(":", "_") + ".walk.json")
         p = run_h(ctx, ["lts", self.sut, edges, "-seed", str(ctx.seed), "-walks", str(walks), "-depth", str(depth), "-out", rep_path])
         if p.returncode != 0:
             raise Inconclusive("walker died on %s: %s" % (self.module, (p.stderr or p.stdout)[-2000:]))
@@ -194,8 +209,15 @@ class SeqUnit(Unit):
             what = "%s.%s: real code gave %s, model allows %s (cfg %s, after %d steps)" % (
                 self.sut, m["op"], json.dumps(m["observed"]), json.dumps(m["expected"]), json.dumps(m["cfg"]), len(m["path"]) - 1)
             ctx.violation(self.name, sig, what, {"kind": "path", "sut": self.sut, "mismatch": m})
-        if not rep.get("mismatches") and rep["stimulus_groups_covered"] < rep["stimulus_groups"]:
-            raise Inconclusive("LTS tour of %s covered %d/%d stimulus groups" % (self.module, rep["stimulus_groups_covered"], rep["stimulus_groups"]))
+        # coverage gate: every stimulus group in every state THIS implementation can reach (alternatives of nondeterministic
+        # groups it never takes lead to states that cannot be visited) must have been exercised or have produced a mismatch
+        reachable = rep.get("stimulus_groups_reachable", rep["stimulus_groups"])
+        bad = rep.get("stimulus_groups_mismatched", 0)
+        self.info["lts"]["groups_reachable"] = reachable
+        ctx.bump("lts_stimulus_groups_reachable_by_impl", reachable)
+        if rep["stimulus_groups_covered"] + bad < reachable:
+            raise Inconclusive("LTS tour of %s covered %d (+%d mismatched) of %d reachable stimulus groups" % (
+                self.module, rep["stimulus_groups_covered"], bad, reachable))
 
     def run_trace(self, ctx, sd):
         ntr, ln = self.thorough_traces if ctx.thorough else self.traces
@@ -400,7 +422,8 @@ def finish(ctx, wall):
     if ctx.inconclusive:
         ev["coverage"]["inconclusive"] = ctx.inconclusive
     os.makedirs(os.path.join(ctx.root, "evidence"), exist_ok=True)
-    with open(os.path.join(ctx.root, "evidence", ctx.pid + ".json"), "w") as fh:
+    evpath = os.path.join(ctx.out, "evidence.json") if ctx.alt else os.path.join(ctx.root, "evidence", ctx.pid + ".json")
+    with open(evpath, "w") as fh:
         json.dump(ev, fh, indent=1)
     if new:
         return 1
